@@ -179,7 +179,7 @@ def mk_withdraw_emissions(perm):
             fl = fsym(acct, 'MarginfiAccount', 'account_flags')
             ob.prove(eng, r, [okc], fl % 2 == 0, 'ACCOUNT_DISABLED accounts are refused', role='disabled')
             if perm: ob.prove(eng, r, [okc], (fl / 64) % 2 == 0, 'frozen accounts are refused', role='frozen')
-            if len(T) > 1: ob.structural('more than one token transfer', 'transfers'); continue
+            if len(T) > 1: ob.fail('more than one token transfer on an accepting path: shape not understood (undecided)'); continue
             if not T:
                 ob.prove(eng, r, [okc], amt == 0, 'no transfer only when nothing is due', role='amount'); continue
             ob.prove(eng, r, [okc], z3.And(T[0][2][1].e == amt, amt > 0, zint(T[0][3].disc) == 0), 'tokens transferred == the settled whole-token amount; transfer error propagated', role='amount')
@@ -236,7 +236,7 @@ def mk_emissions_funding(which):
             T = [e for e in Ev if re.search(r'transfer_checked$', e[1])]; PF = [e for e in Ev if re.search(r'calculate_pre_fee_spl_deposit_amount$', e[1])]
             if not T:
                 ob.prove(eng, r, [okc], rem1 == rem0, 'no transfer => the pool is not credited', role='funding-without-transfer'); continue
-            if len(T) != 1 or len(PF) != 1: ob.structural(f'{len(T)} transfers / {len(PF)} pre-fee computations', 'funding-shape'); continue
+            if len(T) != 1 or len(PF) != 1: ob.shape(min(len(T), len(PF)), 1, f'{len(T)} transfers / {len(PF)} pre-fee computations', 'funding-shape'); continue
             x = PF[0][2][1].e
             ob.prove(eng, r, [okc], z3.And(credited == x * W, PF[0][2][2].e == z3.Int('clock.epoch'), zint(PF[0][3].disc) == 0, T[0][2][1].e == PF[0][3].payload[0][0].e, zint(T[0][3].disc) == 0),
                      'pool credited with X; tokens sent == pre_fee(X) at the current epoch; errors propagated', role='funding-amount')
